@@ -864,6 +864,20 @@ func c19SearchBounds(c *Ctx) {
 		})
 	}
 	if n == 0 {
-		c.bad("search-bounds", token.NoPos, "no bound taken from a search result found in the decoders")
+		// nothing searched for at all (a split done with strings.Cut has no -1 case): nothing to
+		// guard; a search whose result is used in a way this rule does not follow is reported
+		searches := 0
+		for _, f := range c.libFuncsAll() {
+			file := c.Fset.Position(f.Pos()).Filename
+			if !inputFiles[file[strings.LastIndex(file, "/")+1:]] {
+				continue
+			}
+			searches += len(calls(f, isSearch))
+		}
+		if searches == 0 {
+			c.ok("search-bounds", token.NoPos, "the decoders take no slice bound from a search result (no strings/bytes Index call in them)")
+		} else {
+			c.bad("search-bounds", token.NoPos, "the decoders search their input (%d Index call(s)) but no bound taken from a search result was recognised", searches)
+		}
 	}
 }
